@@ -1,8 +1,28 @@
-(* C17 - a retained session behaves like one growing program. Property theorems only (model/Session.v, spec/SemSession.v; proofs/SessionRefine.v, SessionRefineB.v, SessionProofs.v). The refinement is proved for sessions whose lines are in fragment F1 (scalar top-level code, any number of statements per line), failing lines of every kind included; heap values and functions across lines are the recorded finding D24ab, declarations standing after the point where a line failed at run time the recorded finding D29 (its exclusion `decls_done` is shown necessary by a counterexample). Outside F1 the refinement is decided by complete enumeration of short sessions against SemSession.v. *)
+(* C17 - a retained session behaves like one growing program. Property theorems only (model/Session.v, spec/SemSession.v; proofs/SessionRefine.v ... SessionRefineG.v, SessionProofs.v). The refinement is proved for sessions whose lines are in fragment F2 (scalar top-level code with nested block scopes, als / anders als / anders as statement and value, zolang with stop / volgende; any number of statements per line), failing lines of every kind included (session_refines_program_F2; F1 = the same without blocks and control flow, kept as session_refines_program_F1). Excluded, each shown NECESSARY by a machine-checked counterexample: heap values and functions across lines (recorded finding D24ab), declarations standing after the point where a line failed at run time (D29, hypothesis decls_done), a line failing inside the initialiser of a top-level stel (D30, hypothesis init_done: the declared name may sit on a dead block-local's slot and read its stale value). Outside F2 the refinement is decided by complete enumeration of short sessions against SemSession.v. *)
 From NL.Model Require Import Session.
-From NL.Spec Require Import ScopeSpec Sem SemSession Fragment.
-From NL.Proofs Require SymbolsProofs SessionProofs SessionRefine SessionRefineB.
+From NL.Spec Require Import ScopeSpec Sem SemSession Fragment Fragment2.
+From NL.Proofs Require SymbolsProofs SessionProofs SessionRefine SessionRefineB SessionRefineE SessionRefineF SessionRefineG.
 Open Scope Z_scope.
+
+(* THE property on fragment F2 (blocks, if-chains, loops): line by line, what the retained compiler + machine produce is what the session MEANS under the definitional semantics with one carried environment *)
+Theorem session_refines_program_F2 : forall (u : unicode) (orc : oracle) (fuel : nat) (srcs : list text) (asts : list block), Forall2 (fun (src : text) (a : block) => parse u (parse_float orc) src = Ok a) srcs asts -> SessionRefineE.session_hyps2 orc fuel compiler_new sem_session_new asts -> exists N : nat, forall budget : nat, (N <= budget)%nat -> SessionRefineE.lines_corr2 asts (run_session u orc budget session_new srcs) (SessionRefineB.sem_session_run orc fuel sem_session_new asts).
+Proof. exact SessionRefineE.session_refines_program_F2. Qed.
+
+(* one F2 line from any related pair of states: accepted and run, rejected, or failing at run time after some assignments; the relation SRel2 is re-established *)
+Theorem line_refines_F2 : forall (u : unicode) (orc : oracle) (fuel : nat) (s : session) (sem : sem_session) (src : text) (ast : block), SessionRefineE.SRel2 s sem -> parse u (parse_float orc) src = Ok ast -> in_F2 ast = true -> (CompilerNames.bsize ast <= fuel)%nat -> snd (sem_line' orc fuel sem ast) <> LFuel -> snd (compile_ast ast (ss_compiler s)) <> Err ESyntaxError -> SessionRefine.decls_done orc fuel sem ast -> SessionRefineD.init_done orc fuel sem ast -> exists (n : nat) (s' : session) (o : line_obs), (forall budget : nat, (n <= budget)%nat -> run_line u orc budget s src = (s', o)) /\ SessionRefineE.SRel2 s' (fst (sem_line' orc fuel sem ast)) /\ SessionRefineE.obs_corr2 ast o (snd (sem_line' orc fuel sem ast)) /\ ss_compiler s' = fst (compile_ast ast (ss_compiler s)).
+Proof. exact SessionRefineE.line_refines_F2. Qed.
+
+(* a session of F2 lines that all succeed gives the last line the value it has as the last line of the single program made of all lines *)
+Theorem session_equals_single_program_F2 : forall (u : unicode) (orc : oracle) (fuel : nat) (srcs : list text) (asts : list block), Forall2 (fun (src : text) (a : block) => parse u (parse_float orc) src = Ok a) srcs asts -> SessionRefineE.session_hyps2 orc fuel compiler_new sem_session_new asts -> (forall r : line_result, In r (SessionRefineB.sem_session_run orc fuel sem_session_new asts) -> exists (v : val) (h : heap) (out : text), r = LValue v h out) -> asts <> [] -> ends_expr (last asts []) = true -> last asts [] <> [] -> exists (v : val) (h : heap) (N F : nat), forall budget fuel' : nat, (N <= budget)%nat -> (F <= fuel')%nat -> sem_program orc fuel' (concat asts) = SemValue v h [] /\ (let o := last (run_session u orc budget session_new srcs) (front_obs session_new OutOfFuel) in lo_result o = Ok v /\ lo_out o = []).
+Proof. exact SessionRefineG.session_equals_single_program_F2. Qed.
+
+(* a rejected F2 line changes neither the machine, the pool, the symbols nor the meaning *)
+Theorem rejected_line_keeps_both_states_F2 : forall (u : unicode) (orc : oracle) (fuel budget : nat) (s : session) (sem : sem_session) (src : text) (ast : block) (st' : cstate) (e : errkind), SessionRefineE.SRel2 s sem -> parse u (parse_float orc) src = Ok ast -> in_F2 ast = true -> (CompilerNames.bsize ast <= fuel)%nat -> compile_ast ast (ss_compiler s) = (st', Err e) -> e <> ESyntaxError -> let s' := fst (run_line u orc budget s src) in ss_vm s' = ss_vm s /\ ss_pool s' = ss_pool s /\ c_symbols (ss_compiler s') = c_symbols (ss_compiler s) /\ c_constants (ss_compiler s') = c_constants (ss_compiler s) /\ c_code (ss_compiler s') = [] /\ c_loops (ss_compiler s') = [] /\ sem_line' orc fuel sem ast = (sem, LRejected e).
+Proof. exact SessionRefineE.rejected_line_keeps_both_states_F2. Qed.
+
+(* the definitional semantics of the WHOLE language is monotone in its fuel: more fuel never changes a result that was not out-of-fuel *)
+Theorem sem_fuel_mono : forall (orc : oracle) (n : nat), (forall (n' : nat) (c : dctx) (e : expr) (st : sstate), (n <= n')%nat -> eval_expr orc n c e st <> RFuel -> eval_expr orc n' c e st = eval_expr orc n c e st) /\ (forall (n' iter iter' : nat) (c : dctx) (cnd : expr) (body : list stmt) (last : val) (st : sstate), (n <= n')%nat -> eval_while orc n iter c cnd body last st <> RFuel -> eval_while orc n' iter' c cnd body last st = eval_while orc n iter c cnd body last st) /\ (forall (n' : nat) (c : dctx) (b : list stmt) (last : val) (st : sstate), (n <= n')%nat -> exec_block orc n c b last st <> RFuel -> exec_block orc n' c b last st = exec_block orc n c b last st).
+Proof. exact SessionRefineF.sem_fuel_mono. Qed.
 
 (* THE property on fragment F1: line by line, what the retained compiler + machine produce is what the session MEANS under the definitional semantics with one carried environment - values, error kinds, no output - with one budget for all lines *)
 Theorem session_refines_program_F1 : forall (u : unicode) (orc : oracle) (fuel : nat) (srcs : list text) (asts : list block), Forall2 (fun (src : text) (a : block) => parse u (parse_float orc) src = Ok a) srcs asts -> SessionRefineB.session_hyps orc fuel compiler_new sem_session_new asts -> exists N : nat, forall budget : nat, (N <= budget)%nat -> SessionRefineB.lines_corr asts (run_session u orc budget session_new srcs) (SessionRefineB.sem_session_run orc fuel sem_session_new asts).
@@ -57,6 +77,11 @@ Theorem successful_compile_clean : forall (ast : block) (st st' : cstate) (bc : 
 Proof. exact SessionProofs.successful_compile_clean. Qed.
 
 
+Print Assumptions session_refines_program_F2.
+Print Assumptions line_refines_F2.
+Print Assumptions session_equals_single_program_F2.
+Print Assumptions rejected_line_keeps_both_states_F2.
+Print Assumptions sem_fuel_mono.
 Print Assumptions session_refines_program_F1.
 Print Assumptions line_refines.
 Print Assumptions session_equals_single_program.
